@@ -25,6 +25,9 @@ CLAIMED = {
     "C06": ("exploration",
             "Same recorder world with generated credential tables (exact, *:port, host:*, *:*, overlapping), upstream proxies with/without userinfo or PAC-selected, basic auth on the proxy; every secret is a unique token. For every arrival (after TLS termination, also inside tunnels and SOCKS5 auth) the oracle demands exactly the expected Proxy-Authorization / Authorization under the documented precedence, and raw scans of all received bytes show each secret only at the hop it belongs to.",
             "DESIGN.md 4 C06", "deterministic simulation + wire-level taint tracking of unique secrets at every node"),
+    "C08": ("exploration",
+            "Deterministic simulation of proxyproto.Listener over the in-memory network (and, in a fifth of the runs, of the whole proxy with the PROXY protocol enabled): generated v1/v2 headers of every command x family, TLV tails, malformed/truncated/oversized headers, every segmentation down to single bytes, peers stalling before any header byte for less or more than the header timeout (fake clock) or forever, and several application goroutines calling Read/RemoteAddr/LocalAddr/Header/Write concurrently before the header arrives. Oracle: a reference parser written from the PROXY protocol specification decides accept(src,dst) / accept-local / reject / either; addresses never nil, payload byte-exact, failure no later than the timeout; a dead worker = crash.",
+            "DESIGN.md 4 C08", "deterministic simulation (segmentation, stalls on the fake clock, concurrent callers) + independent PROXY v1/v2 reference parser"),
     "C12": ("fault_enumeration",
             "Fault enumeration in the deterministic simulator: every request kind (plain, via upstream, CONNECT direct / via HTTP / via HTTPS upstream, MITM-inner) crossed with every fault point the network and the scripted peers can produce (refused / black-holed dial with the timeouts on the fake clock, RST at accept, TLS garbage / close / expired / wrong-name / untrusted certificate, CONNECT rejected with 3xx-5xx, FIN or RST after k bytes of the reply with k ranging over the whole reply, malformed status line / header / chunk, wrong Content-Length, unusual status lines) with healthy exchanges before and after on the same connection, plus a second world of hostile client byte streams on plain/TLS/MITM listeners. A strict client-side parser classifies the outcome; a dead worker process (Go panic in a proxy goroutine) is reported as a crash with its seed.",
             "DESIGN.md 4 C12", "deterministic simulation with enumerated fault points (dial, TLS, CONNECT reply, cut after k bytes) + strict client parser + crash detection by worker death"),
